@@ -121,6 +121,9 @@ func (s *Solver) roundTrip(text string, hardTimeout time.Duration) ([]string, er
 // natively, which is what decides.
 var AcceptAbstractSat = false
 
+// AbstractGraceS: how long a precise verdict is awaited after an abstracted query answered sat.
+var AbstractGraceS = 5
+
 type QueryResult struct {
 	Abstract bool
 	Verdict  Verdict
@@ -530,7 +533,7 @@ func (p *SolverPool) Solve(asserts []*Term, timeoutMs int, portfolio []SolverKin
 				// prefer a precise verdict if one arrives within 5 s
 				rr := r
 				abstractSat = &rr
-				grace = time.After(5 * time.Second)
+				grace = time.After(time.Duration(AbstractGraceS) * time.Second)
 				continue
 			}
 			// the losers are killed at once (a solver that keeps running would starve the other workers)
